@@ -121,6 +121,10 @@ def run_case(c):
         if started is None:
             return Out(["bind-list-not-served"], False)
         srv, t, result, port = started
+    if c.get("manager_age_s"):
+        # the manager has been up for a while before the clients arrive (whatever it does on a
+        # timer of its own has had time to start doing it)
+        time.sleep(c["manager_age_s"])
     mark = len(w.log)
     for ordinal, kind in c.get("faults", []):
         w.faults[w.nex + ordinal] = kind
@@ -453,6 +457,10 @@ def stall_cases(tier, seed):
                      {"offset_ms": 500, "script": ["state"]},
                      {"offset_ms": 900, "script": ["signerHb"]}],
          "delays_us": [600000]},
+        # a manager that has been running for half a minute, then busy for ten seconds
+        {"manager_age_s": 27, "delays_us": [25000],
+         "clients": [{"offset_ms": i, "script": ["state", "sign_auth", "state", "signerHb",
+                                                 "state"]} for i in range(6)]},
     ]
 
 
@@ -469,6 +477,6 @@ def stages(tier):
                       budget_s={"quick": 90, "thorough": 90}, workers=3),
             EnumStage("slow-device", stall_cases, run_case,
                       exhaustive={"quick": True, "thorough": True},
-                      budget_s={"quick": 120, "thorough": 120}, workers=2),
+                      budget_s={"quick": 150, "thorough": 150}, workers=3),
             HypStage("schedules", lambda t: cases(t), run_case, {"quick": 6, "thorough": 150},
                      budget_s={"quick": 90, "thorough": 1500}, shrink=False)]
